@@ -19,3 +19,19 @@ package index
 //@   loop 1 invariant s.batch == old(s.batch) && iter <= len(s.batch) && forall(i, 0, iter, sid(s.batch[i]) != sid(hash))
 //@   loop 1 decreases len(s.batch) - iter
 //@   loop 1 returns [C20] result == nil && exists(i, 0, len(s.batch), sid(s.batch[i]) == sid(hash))
+
+// hashAtIndexEqual answers true exactly when entry off exists in the file and holds the 16 bytes of b (all 16: the fan-out
+// table narrows the search by b[0] only when the file is well formed, which a look-up must not take for granted).
+//@ func hashAtIndexEqual
+//@   props C20
+//@   requires len(b) == 16 && len(buf) >= 16 && reg(buf) != reg(b)
+//@   modifies buf[:]
+//@   ensures [C20] result1 == nil ==> (result0 <==> (member2(fileSlots, r, off) && get2(fileHash, r, off) == sidc(b)))
+//@   loop 1 invariant 0 <= k && k <= 16 && pos16(k) && forall(q, 0, k, h[q] == b[q])
+//@   loop 1 decreases 16 - k
+
+// Has reports membership exactly as the look-up found it (position 0 is a member like any other).
+//@ func (*HashSet).Has
+//@   props C20
+//@   requires len(b) == 16 && s.r != nil
+//@   ensures [C20] result1 == nil ==> (result0 <==> member2(fileSet, 0, sid(b)))
